@@ -1222,6 +1222,7 @@ theorem Inv.succ (hEnv : EnvWF env) (hp : ∀ p, p.proved = true → PrimOK p) (
     | refT t => exact enc_refT h t v b b' hw hd he
     | prim p => exact enc_prim hp p v b b' hw hd he
     | vmStack e => simp [wfb] at hw
+    | chain e => simp [wfb] at hw
     | dictE k t => exact enc_dictE h k t v b b' hw hd he
     | dict k t => exact enc_dict h k t v b b' hw hd he
     | encErr id => simp [encode] at he
